@@ -1370,7 +1370,8 @@ namespace xsimd
                         if (all(test))
                             return select(inf_result, constants::nan<batch_type>(), r);
                     }
-                    batch_type r1 = other(a);
+                    // lanes handled by large_negative must not drive the recurrences of other()
+                    batch_type r1 = other(select(test, batch_type(2.), a));
                     batch_type r2 = select(test, r, r1);
                     return select(a == constants::minusinfinity<batch_type>(), constants::nan<batch_type>(), select(inf_result, constants::infinity<batch_type>(), r2));
                 }
